@@ -136,6 +136,13 @@ Definition tr_one (f : final) : trace := {| sends := 1; sleeps := []; ubounds :=
 Definition tr_cons (d u : fl) (t : trace) : trace :=
   {| sends := S (sends t); sleeps := d :: sleeps t; ubounds := u :: ubounds t; fin := fin t |}.
 
+(* the range of the for loop and the guards of its body, as written in _request_with_retry:
+   range(config.max_retries + 1);  not config.retry_on_connection_error or attempt >= config.max_retries;
+   attempt >= config.max_retries *)
+Definition loop_fuel (c : config) : nat := max_retries c + 1.
+Definition guard_conn (c : config) (attempt : nat) : bool := negb (roce c) || (max_retries c <=? attempt)%nat.
+Definition guard_status (c : config) (attempt : nat) : bool := (max_retries c <=? attempt)%nat.
+
 (* for attempt in range(max_retries + 1): ...   `fuel` is what is left of the range, `last` is
    (last_resp.status_code, last_retry_after) *)
 Fixpoint loop (c : config) (jit : nat -> fl) (fuel attempt : nat) (fs : list outcome)
@@ -152,21 +159,21 @@ Fixpoint loop (c : config) (jit : nat -> fl) (fuel attempt : nat) (fs : list out
                 (loop c jit fuel' (S attempt) (tl fs) last') in
       match o with
       | ODisconnect =>
-          if negb (roce c) || (max_retries c <=? attempt)%nat then tr_one (FRaise o) else again None last
+          if guard_conn c attempt then tr_one (FRaise o) else again None last
       | OConnErr | OTimeout =>
-          if negb (roce c) || (max_retries c <=? attempt)%nat then tr_one (FRaise o) else again None last
+          if guard_conn c attempt then tr_one (FRaise o) else again None last
       | OProtoOther | OOtherErr => tr_one (FRaise o)
       | OResp s h =>
           if negb (status_in s (retryable c)) then tr_one (FReturn s)
           else
             let ra := parse_ra h in
-            if (max_retries c <=? attempt)%nat then tr_one (FTransient s ra)      (* break *)
+            if guard_status c attempt then tr_one (FTransient s ra)      (* break *)
             else again ra (Some (s, ra))
       end
   end.
 
 Definition request_with_retry (c : config) (jit : nat -> fl) (fs : list outcome) : trace :=
-  loop c jit (max_retries c + 1) 0 fs None.
+  loop c jit (loop_fuel c) 0 fs None.
 
 (* a bare client.post(): one send, whatever happens *)
 Definition single (fs : list outcome) : trace :=
@@ -247,7 +254,8 @@ Definition continuation (co : option config) (jit : nat -> fl) (fs : list outcom
   let t := post_with_retry co jit fs in
   {| xsends := sends t; xext := false; xfin := xfinal_of (fin t) |}.
 
-Inductive op := OpUnary | OpInit | OpCont | OpExchange | OpCancel.
+Inductive op := OpUnary | OpInit | OpCont | OpExchange | OpCancel
+  | OpExchangeCancelled (* exchange() on a cancelled session *) | OpCancelCancelled (* second cancel() *).
 
 Definition op_run (o : op) (co : option config) (jit : nat -> fl) (fs : list outcome) (ext_ok : bool) : xtrace :=
   match o with
@@ -255,6 +263,8 @@ Definition op_run (o : op) (co : option config) (jit : nat -> fl) (fs : list out
   | OpCont => continuation co jit fs
   | OpExchange => exchange true fs ext_ok
   | OpCancel => cancel true fs
+  | OpExchangeCancelled => exchange (cancel_state_after true) fs ext_ok
+  | OpCancelCancelled => cancel (cancel_state_after true) fs
   end.
 
 (* ---- entry points for the correspondence runs ---------------------------------------------- *)
@@ -324,3 +334,22 @@ Definition run_delay (i : config * nat * ra_hdr * fl) : fl * fl * option fl :=
   (exp_delay c a, compute_delay c a (parse_ra h) j, parse_ra h).
 Definition delay_eqb (a b : fl * fl * option fl) : bool :=
   let '(u1, d1, r1) := a in let '(u2, d2, r2) := b in fl_eqb u1 u2 && fl_eqb d1 d2 && ofl_eqb r1 r2.
+
+(* ---- request sites of the client functions (regenerated from _client.py, see tie/T_Retry.v) -- *)
+Inductive site_kind := SitePlain (* self._client.post(...) *) | SiteRetried (* _post_with_retry(...) *).
+Inductive site_guard :=
+| GAlways   (* top level of the function (or of its try: / with:) *)
+| G413      (* inside `if resp.status_code == HTTPStatus.REQUEST_ENTITY_TOO_LARGE` *)
+| G415.     (* inside `if resp.status_code == HTTPStatus.UNSUPPORTED_MEDIA_TYPE and ...` *)
+Definition exchange_sites : list (site_kind * site_guard) := [(SitePlain, GAlways); (SitePlain, G413)].
+Definition cancel_sites : list (site_kind * site_guard) := [(SitePlain, GAlways)].
+Definition continuation_sites : list (site_kind * site_guard) := [(SiteRetried, GAlways)].
+Definition unary_sites : list (site_kind * site_guard) := [(SiteRetried, GAlways); (SiteRetried, G415); (SiteRetried, G413)].
+(* "without sending a response": the substring of str(exc) that marks a disconnect before any response byte *)
+Definition disconnect_marker : list N :=
+  [119; 105; 116; 104; 111; 117; 116; 32; 115; 101; 110; 100; 105; 110; 103; 32; 97; 32; 114; 101; 115; 112; 111; 110; 115; 101]%N.
+
+Definition default_retryable : list N := [429; 502; 503; 504]%N.
+Definition default_config : config :=
+  {| max_retries := 3; bbase := FFin (1 # 2); bmax := FFin (30 # 1); retryable := default_retryable;
+     roce := true; respect_ra := true |}.
